@@ -171,6 +171,13 @@ def gen_case(rng, tier, avoid):
             body = body + [{'op': 'add', 'lf': gen.pick(rng, lfs_before), 'kind': 'zone', 'h': 'hc_rej', 'name': 'not hc compatible',
                             'kwargs': {}, 'propagate': True, 'c': 9, 'bad': 'rejected_by_mode'}]
         hist = hist[:a] + [{'op': 'hc_block', 'form': rng.choice(['with', 'decorator']), 'body': body}] + hist[b:]
+    if nc >= 2 and not use_hc and rng.random() < 0.12:
+        # two CALLER THREADS, each writing its own file, interleaved at seeded line events inside the library (one runs at a time;
+        # the schedule is the list of line counts): what the two writes share in the process must not mix their bytes
+        hist.append({'op': 'concurrent_writes', 'c': 9,
+                     'parts': [{'fid': 'f0', 'path': 'conc0.dlis', 'output_chunk_size': rng.choice([1 << 20, 8192, 16384])},
+                               {'fid': 'f1', 'path': 'conc1.dlis', 'output_chunk_size': rng.choice([1 << 20, 8192, 16384])}],
+                     'switch': [rng.choice([1, 3, 7, 20, 50, 200, 1000, 5000]) for _ in range(rng.choice([1, 2, 4]))]})
     if rng.random() < 0.12:
         # the environment of the process changes in mid-history: logging configuration, the process time zone
         envop = rng.choice([{'op': 'set_log', 'mode': rng.choice(['error', 'disabled', 'default'])},
@@ -265,5 +272,32 @@ def check_case(case, ex):
                     isinstance(a, float) and isinstance(b, float) and a == b == 0.0 and str(a) != str(b) for a, b in zip(gv, wv)))
             out.append(C.V('C14.bytes_differ', f2, where=loc, write=str(k)))
         stats['state_sigs'].append('%s|w%d|hc%s|%s' % (hclass, min(earlier + 1, 3), in_hc, st['out']))
+    for i, op in enumerate(hist):
+        if op.get('op') != 'concurrent_writes':
+            continue
+        st = steps[i]
+        if st is None or st.get('out') != 'ok':
+            C.bump(stats['probes'], 'concurrent_writes_not_run')
+            continue
+        C.bump(stats['probes'], 'concurrent_writes')
+        C.bump(stats['probes'], 'thread_switches', st.get('switches') or 0)
+        stats['nontrivial'] = True
+        for part, pst in zip(op['parts'], st.get('parts') or []):
+            w = {'op': 'write', 'fid': part['fid'], 'path': 'proj.dlis', 'output_chunk_size': part['output_chunk_size']}
+            proj = P.project(hist[:i] + [w], list(steps[:i]) + [None], i, path='proj.dlis')
+            r2 = ex({'env': case['scenario']['env'], 'history': proj})
+            stats['execs'] += 1
+            st2 = C.last_write(r2)
+            fp = {'history': 'concurrent_write', 'write_no': 1, 'in_hc_block': False}
+            if st2 is None:
+                continue
+            if pst.get('out') != st2['out']:
+                out.append(C.V('C14.outcome_differs', dict(fp, got=pst.get('out'), exc=pst.get('exc') or st2.get('exc')),
+                               history_outcome=pst.get('out'), projection_outcome=st2['out'], msg=pst.get('msg') or st2.get('msg')))
+            elif pst.get('out') == 'ok' and pst.get('file') != st2.get('file'):
+                loc = _locate(pst.get('file') or b'', st2.get('file') or b'')
+                out.append(C.V('C14.bytes_differ', dict(fp, set=loc.get('set'), label=loc.get('label'), only_set_order=False,
+                                                        renamed=False), where=loc, switches=st.get('switches')))
+        stats['state_sigs'].append('concurrent|%s' % min((st.get('switches') or 0) // 10, 99))
     stats['interleaving'] = case['params'].get('schedule')
     return {'violations': out, 'stats': stats}
